@@ -17,7 +17,7 @@ pub(crate) const NC: usize = 40;
 pub(crate) const CAPS: [usize; 14] = [3, 5, 8, 10, 12, 16, 18, 22, 24, 30, 32, 36, 38, 43];
 
 /// Nondeterministic stand-in for `GenericDataEncoder` as the mode encoders see it.
-pub(crate) struct HEnc {
+pub(crate) struct HEnc<const NI: usize = 8, const NC: usize = 40> {
     pub inp: [u8; NI],
     pub n: usize,
     pub cur: usize,
@@ -36,7 +36,7 @@ pub(crate) struct HEnc {
     pub bad_index: bool,
 }
 
-impl HEnc {
+impl<const NI: usize, const NC: usize> HEnc<NI, NC> {
     pub fn new(inp: [u8; NI], n: usize, n0: usize, caps: [usize; 3], switch_at: usize) -> Self {
         HEnc {
             inp,
@@ -68,7 +68,7 @@ impl HEnc {
     }
 }
 
-impl EncodingContext for HEnc {
+impl<const NI: usize, const NC: usize> EncodingContext for HEnc<NI, NC> {
     fn maybe_switch_mode(&mut self) -> Result<bool, DataEncodingError> {
         let left = self.n - self.cur;
         if self.switched {
@@ -157,7 +157,7 @@ impl EncodingContext for HEnc {
     }
 }
 
-fn real_encode(mode: u8, ctx: &mut HEnc) -> Result<(), DataEncodingError> {
+fn real_encode<const NI: usize, const NC: usize>(mode: u8, ctx: &mut HEnc<NI, NC>) -> Result<(), DataEncodingError> {
     if mode == vd::M_ASCII {
         ascii::encode(ctx)
     } else if mode == vd::M_C40 {
@@ -217,7 +217,7 @@ fn conf_generic<const L: usize>(mode: u8, n0max: usize) {
             i += 1;
         }
     }
-    let mut ctx = HEnc::new(inp, n, n0, caps, switch_at);
+    let mut ctx = HEnc::<8, 40>::new(inp, n, n0, caps, switch_at);
     let r = real_encode(mode, &mut ctx);
     assert!(!ctx.bad_index);
     if mode != vd::M_ASCII && mode != vd::M_X12 {
@@ -329,6 +329,44 @@ conf!(conf_edifact_5, 8, vd::M_EDIFACT, 5, 8);
 conf!(conf_b256_2, 6, vd::M_B256, 2, 8);
 conf!(conf_b256_3, 7, vd::M_B256, 3, 8);
 
+/// Base256 runs of exactly L bytes around the 249/250 length-field boundary and
+/// at 1555 (the longest field): content one symbolic byte repeated, run to the
+/// end of the data, symbol with room to spare (so the length is written
+/// explicitly); the independent decoder must read the same L bytes back.
+fn b256_long<const L: usize, const NCW: usize>() {
+    let fill: u8 = kani::any();
+    let inp = [fill; L];
+    let n0: usize = 1;
+    let mut ctx = HEnc::<L, NCW>::new(inp, L, n0, [NCW - 1, NCW - 1, NCW - 1], 0);
+    let r = base256::encode(&mut ctx);
+    assert!(r.is_ok() && !ctx.bad_index);
+    assert!(ctx.cur == L && ctx.ascii_end);
+    let hdr = if L < 250 { 1 } else { 2 };
+    assert!(ctx.ncw == n0 + hdr + L);
+    // independent reading of the field
+    let d1 = iso::unrand_255(ctx.cw[n0], n0 + 1) as usize;
+    let len = if d1 < 250 { d1 } else { 250 * (d1 - 249) + iso::unrand_255(ctx.cw[n0 + 1], n0 + 2) as usize };
+    assert!(d1 != 0 && len == L);
+    assert!((d1 < 250) == (L < 250));
+    assert!(iso::unrand_255(ctx.cw[n0 + hdr], n0 + hdr + 1) == fill);
+    assert!(iso::unrand_255(ctx.cw[n0 + hdr + L - 1], n0 + hdr + L) == fill);
+    assert!(iso::unrand_255(ctx.cw[n0 + hdr + L / 2], n0 + hdr + L / 2 + 1) == fill);
+}
+
+macro_rules! b256long {
+    ($name:ident, $unwind:expr, $l:expr, $ncw:expr) => {
+        #[kani::proof]
+        #[kani::unwind($unwind)]
+        fn $name() {
+            b256_long::<$l, $ncw>();
+        }
+    };
+}
+b256long!(conf_b256_249, 262, 249, 260);
+b256long!(conf_b256_250, 262, 250, 260);
+b256long!(conf_b256_251, 262, 251, 260);
+b256long!(conf_b256_1555, 1570, 1555, 1565);
+
 // ---------------------------------------------------------------------------
 // ECI designators (C15, C02, C11)
 
@@ -428,8 +466,9 @@ fn mac_generic<const N: usize>() {
         assert!(rest[0] == inp[body0 + k - j]);
         assert!(rest[rest.len() - 1] == inp[body0 + blen - 1]);
     }
-    kani::cover!(want_macro && k == 3 && j == 2);
-    kani::cover!(!want_macro && (h05 || h06) && !fnc1);
+    kani::cover!(N < 12 || (want_macro && k == 3 && j == 2));
+    kani::cover!(N < 9 || want_macro);
+    kani::cover!(N < 7 || (!want_macro && (h05 || h06) && !fnc1));
 }
 
 macro_rules! mac {
@@ -524,7 +563,7 @@ fn pad_conf() {
 /// ASCII as the dispatch loop would.  Returns the number of codewords written
 /// for the run, or None if it does not fit / the encoder reports an error.
 pub(crate) fn run_to_end(mode: u8, inp: [u8; NI], n: usize, n0: usize, caps: [usize; 3]) -> Option<usize> {
-    let mut ctx = HEnc::new(inp, n, n0, caps, 0);
+    let mut ctx = HEnc::<8, 40>::new(inp, n, n0, caps, 0);
     if real_encode(mode, &mut ctx).is_err() {
         return None;
     }
